@@ -167,16 +167,7 @@ def dump_expr(e):
     if name is None:
         raise ValueError(n)
     if n == 'ConcatFunction':
-        args = list(e.exprs)
-        # the model nests n-ary concat to the right; flatten the same way
-        out = []
-        while args:
-            a = args.pop(0)
-            if not args and type(a).__name__ == 'ConcatFunction':
-                args = list(a.exprs)
-                continue
-            out.append(dump_expr(a))
-        return [Atom('fn'), 'concat'] + out
+        return [Atom('fn'), 'concat'] + [dump_expr(a) for a in e.exprs]
     if n == 'SubstringFunction':
         args = [e.string, e.start] + ([e.length] if e.length is not None else [])
     elif n == 'MatchesFunction':
@@ -273,7 +264,44 @@ def oracle_case(case, events=None):
 # --------------------------------------------------------------------------
 # generation
 
+def aimed_pred_case(rng):
+    """`*[E = "v"]` where v is the XPath value of the string / number expression E at one of the
+    children of the root: the predicate must hold there, so a wrong function or coercion shows"""
+    doc = {'e': ['', 'r'], 'a': [], 'k': []}
+    for _ in range(rng.choice([2, 3, 4])):
+        doc['k'].append({'e': [rng.choice(G.NSS), rng.choice(G.NAMES)], 'a': G._rand_attrs(rng) or [['', 'n', 'a b']], 'k': []})
+    numeric = rng.random() < 0.4
+    expr = G._number_expr(rng, G.FULL, 2) if numeric else G._string_expr(rng, G.FULL, 3)
+    try:
+        ast = R.parse('*[%s]' % expr)[0][0]['preds'][0]
+        node = R.build(doc).kids[rng.randrange(len(doc['k']))]
+        v = R.ev(ast, node, G.NSMAP, G.VARS)
+    except Exception:  # noqa
+        return None
+    if isinstance(v, list):
+        v = R.to_string(v)
+    if isinstance(v, bool):
+        return None
+    if isinstance(v, float):
+        if v != v or v in (float('inf'), float('-inf')):
+            return None
+        lit = R.num_to_string(v)
+        if lit.startswith('-'):
+            lit = '"%s"' % lit
+        op = rng.choice(['=', '=', '>=', '<='])
+    else:
+        if '"' in v and "'" in v:
+            return None
+        lit = ('"%s"' % v) if '"' not in v else ("'%s'" % v)
+        op = '='
+    return {'doc': doc, 'path': '*[%s%s%s]' % (expr, op, lit)}
+
+
 def gen_case(rng, profile=None):
+    if profile is None and rng.random() < 0.25:
+        c = aimed_pred_case(rng)
+        if c:
+            return c
     doc = G.rand_doc(rng, rng.choice([3, 5, 7, 9, 12]), deep=rng.random() < 0.3)
     profile = profile or rng.choice([G.FULL, G.FULL, G.STRUCT, G.SIMPLE])
     text = G.rand_path_for(rng, doc, profile) if rng.random() < 0.7 else G.rand_path(rng, profile)
